@@ -53,6 +53,10 @@ def run_table(prop, tier, seed, work, module, mc_cfgs, gen_module, gen_cfg, trac
     mine = [d for d in devs if any(is_mine(g) for g in d["guards"])]
     if mine:
         rows = [dict(evs[d["line"] - 1]["case"]) for d in mine]
+        for row, d in zip(rows, mine):
+            xv = evs[d["line"] - 1].get("out", {}).get("xvar")
+            if xv:
+                row["xvar"] = xv   # the harness picked a variant by index: the re-run must use the same one
         e2 = dict(envd)
         e2.update(confirm_env or {})
         evs2, devs2 = execute(rows, "confirm", e2)
